@@ -485,7 +485,10 @@ fn sweep(setup: &Setup, rng: &mut Rng, doubles: usize) -> Vec<Fault> {
     faults.push(Fault::Errno { at: 1, errno: 13 });
     faults.push(Fault::Errno { at: 1, errno: 24 });
     let full_len = setup.full.as_ref().map(|f| f.len()).unwrap_or(64) as u64;
-    let limits: Vec<u64> = if full_len <= 160 {
+    let limits: Vec<u64> = if setup.full.is_err() {
+        // Nothing is ever written when assembling fails: a few limits are as good as all
+        vec![0, 1, 63]
+    } else if full_len <= 160 {
         (0..=full_len).collect()
     } else {
         let mut l = vec![0, 1, 2, 3, full_len - 1, full_len];
